@@ -273,9 +273,13 @@ func genTyped[T any](kind string, cd elem.Codec[T], o *tr.Opts, w *tr.W, r *tr.R
 					for how := 0; how < 2; how++ {
 						for grow := 0; grow < 2; grow++ {
 							// the model replays a record in time quadratic in the contents: the quick tier
-							// takes one in 4 of the product for int, one in 10 for each other type (72
+							// takes one in 4 of the product for int, one in 3 for [3]byte, one in 10 for each other type (72
 							// types x origins x ends per stage), the later stages half as often
-							if !o.Thorough() && (!r.Chance(1, map[bool]int{false: 4, true: 10}[typed]) || stage > 3 && r.Bool()) {
+							den := map[bool]int{false: 4, true: 10}[typed]
+							if kind == "Tt" {
+								den = 3 // [3]byte: the capacities 2, 5, 10, 21 are the non-powers of two within reach
+							}
+							if !o.Thorough() && (!r.Chance(1, den) || stage > 3 && kind != "Tt" && r.Bool()) {
 								continue
 							}
 							if o.Thorough() && !r.Chance(1, 8) { // an eighth of the product, buffers up to ~100 slots
